@@ -177,8 +177,10 @@ pub fn run(ctx: &Ctx) -> Result<(), String> {
 
     // part 3: free-running conformance (sampled): real binary, closed-loop reference clients
     let mut sampled = vec![];
-    if ctx.tier == Tier::Thorough {
-        for nw in [1usize, 2, 4, 8, 16] {
+    {
+        let nws: Vec<usize> = ctx.tier.pick(vec![4, 16], vec![1, 2, 4, 8, 16]);
+        let rounds: u64 = ctx.tier.pick(15, 60);
+        for nw in nws {
             let port = free_port();
             let mut w = Written::base(port);
             w.set("num_workers", &nw.to_string());
@@ -197,7 +199,7 @@ pub fn run(ctx: &Ctx) -> Result<(), String> {
                         sock.set_read_timeout(Some(Duration::from_secs(2))).unwrap();
                         let addr: std::net::SocketAddr = format!("127.0.0.1:{}", port).parse().unwrap();
                         let mut buf = [0u8; 4096];
-                        for r in 0..60u64 {
+                        for r in 0..rounds {
                             let v = if (c + r as usize) % 2 == 0 { Version::Classic } else { Version::Ietf13 };
                             let req = rtref::responder::std_request(v, &nonce(((c as u64) << 20) + r, v.nonce_len()));
                             let _ = sock.send_to(&req, addr);
@@ -234,7 +236,7 @@ pub fn run(ctx: &Ctx) -> Result<(), String> {
     ctx.cov("caps_hit", json!(sched.caps_hit));
     ctx.cov("exhaustive", json!(sched.caps_hit.is_empty()));
     ctx.cov("bound", json!({"in_process": ctx.tier.pick("W=2,K=3,depth 7", "W=2,K=4,depth 8; W=3,K=3,depth 7"), "controlled": ctx.tier.pick("N=2,K=2, preemption bound 2, distributions up to worker symmetry", "N in {2,3}, K in {2,3}, every distribution, preemption bound 3/2/2/1")}));
-    ctx.cov("rule", json!("(1) in-process: W real Server objects from one seed; all event sequences of the depth bound over {deliver(next request -> worker w), step(w)} (the harness plays the kernel's distribution), completed to quiescence: exactly one reply per request, from the worker it was delivered to, authentic for that request under the single long-term key, per-responder delegated keys stable and distinct. (2) the real server process under the controlled scheduler: K requests whose source ports are chosen through the learned port->worker map to realise each distribution; schedules over the hook points (loop_top, polled, collected, sent, flag_check of each worker, environment sends) explored with iterative preemption bounding; same oracle plus no thread exit/panic and every worker back at loop_top. (3) thorough only, sampled: free-running binary with 64 closed-loop reference clients for num_workers in {1,2,4,8,16}."));
+    ctx.cov("rule", json!("(1) in-process: W real Server objects from one seed; all event sequences of the depth bound over {deliver(next request -> worker w), step(w)} (the harness plays the kernel's distribution), completed to quiescence: exactly one reply per request, from the worker it was delivered to, authentic for that request under the single long-term key, per-responder delegated keys stable and distinct. (2) the real server process under the controlled scheduler: K requests whose source ports are chosen through the learned port->worker map to realise each distribution; schedules over the hook points (loop_top, polled, collected, sent, flag_check of each worker, environment sends) explored with iterative preemption bounding; same oracle plus no thread exit/panic and every worker back at loop_top. (3) sampled: free-running binary with 64 concurrent closed-loop reference clients (quick: 15 rounds, num_workers {4,16}; thorough: 60 rounds, {1,2,4,8,16}); a failure observed there is a real failing execution, its absence is not a proof."));
     ctx.sample(json!({"kind":"multi","workers":2,"events":["Deliver(0)","Deliver(1)","Step(1)","Deliver(0)","Step(0)"]}));
     ctx.sample(json!({"kind":"schedule","scenario":"load-n2-k2-dist[0, 1]","schedule":["env:send(c3,C)","worker-0@loop_top(0)","env:send(c0,I)","worker-1@loop_top(0)","worker-0@polled(1)"]}));
     ctx.assume("interleavings are explored at hook granularity; all cross-thread communication of the server goes through hooked operations or kernel sockets (static audit: no static mut / unsafe / shared Mutex besides the config lock, the KEEP_RUNNING flag and the stats queue)");
